@@ -27,6 +27,10 @@ func noteFindC19(method string, req [][]string, opt []string, activeOnly bool) {
 	}
 	c.Opt = append([]string{}, opt...)
 	findMuC19.Lock()
+	if len(findLogC19) >= 4096 {
+		// drivers that never read the log must not grow it without bound
+		findLogC19 = append(findLogC19[:0], findLogC19[2048:]...)
+	}
 	findLogC19 = append(findLogC19, c)
 	findMuC19.Unlock()
 }
